@@ -157,7 +157,7 @@ class _G:
             if self.p["templates"]:
                 kinds += ["tmpl"]
             if self.p["maps"]:
-                kinds += ["map"]
+                kinds += ["map"] * self.p.get("map_weight", 2)
             if self.p["derived"] and self.defs:
                 kinds += ["derived"]
             if lazy_ok:
@@ -237,7 +237,7 @@ class _G:
             for key in self.draw(st.lists(st.sampled_from(["A", "B", "K", "S.X", "S.Y", "T"]), min_size=1, max_size=2, unique=True)):
                 src = self.pick(["val", "val", "optL", "list"])
                 if src == "val":
-                    it = {"k": "val", "v": self.draw(st.lists(st.sampled_from(U.HASHABLE_DISPATCH), max_size=3))}
+                    it = {"k": "val", "v": self.draw(st.lists(st.sampled_from(U.HASHABLE_DISPATCH), max_size=3, unique_by=lambda v: (type(v).__name__, v)))}
                 elif src == "optL":
                     it = {"k": "opt", "key": "L"}
                 else:
@@ -245,7 +245,17 @@ class _G:
                 iters.append([key, it])
             how = self.pick((["list"] if self.p.get("picklable") else ["list", "values_list"]) + (["raw", "values_raw"] if lazy_ok else []))
             body = self.node(d)
-            if self.chance(0.7):
+            r = self.draw(st.sampled_from(range(10)))
+            const_iters = [(k, it) for k, it in iters if it["k"] == "val" and len(it["v"]) >= 2]
+            if r <= 3 and const_iters:
+                # the body picks a branch from the mapped key, and the branches need different options
+                k, it = self.pick(const_iters)
+                lookup = [[v, self.opt(keys=U.FLAT + ["S.X", "R.U.V", "T"]) if self.chance(0.8) else self.node(0)] for v in it["v"][:3]]
+                sw = {"k": "switch", "disp": k, "lookup": lookup}
+                if self.chance(0.5):
+                    sw["default"] = self.node(0)
+                body = {"k": "tuple", "items": [sw, body]} if self.chance(0.5) else sw
+            elif r <= 7:
                 # the body reads (at least) one of the keys the Map assigns
                 body = {"k": "tuple", "items": [{"k": "opt", "key": self.pick([k for k, _ in iters])}, body]}
             return {"k": "map", "body": body, "iters": iters, "as": how}
@@ -296,6 +306,13 @@ class _G:
                 else:
                     impl = self.node(1, hashable)
                 ovs.append([alias, impl])
+            if isinstance(d["dispatch"], str) and not hashable and self.chance(self.p.get("self_overload", 0.12)):
+                # an overload computed from the dataset it overloads: the same dataset with the dispatch pinned to an
+                # unregistered value (so it takes the default implementation); the object graph is cyclic
+                own = {"k": "derived", "base": name, "op": "with_options", "opts": U.nest({d["dispatch"]: "__default__"})}
+                if self.chance(0.6):
+                    own = {"k": "tuple", "items": [own, {"k": "val", "v": "via-overload"}]}   # distinguishable from the default
+                ovs.append([self.pick(["a", "b", 2]), own])
             d["overloads"] = ovs
             if ovs and self.chance(0.12):
                 d["abstract"] = True
